@@ -107,3 +107,39 @@ func indexOnlyUse(t *sx, v, base string) bool {
 	walk(t, nil)
 	return ok
 }
+
+func (n *sx) String() string {
+	if n == nil {
+		return ""
+	}
+	if n.atom != "" || len(n.kids) == 0 && n.atom == "" {
+		if n.atom == "" {
+			return "()"
+		}
+		return n.atom
+	}
+	s := "("
+	for i, k := range n.kids {
+		if i > 0 {
+			s += " "
+		}
+		s += k.String()
+	}
+	return s + ")"
+}
+
+// findSliceBase: the first X such that (+ (s-off X) v) occurs in t.
+func findSliceBase(t *sx, v string) string {
+	if t == nil || t.atom != "" {
+		return ""
+	}
+	if t.head() == "+" && len(t.kids) == 3 && t.kids[2].atom == v && t.kids[1].head() == "s-off" && len(t.kids[1].kids) == 2 {
+		return t.kids[1].kids[1].String()
+	}
+	for _, k := range t.kids {
+		if b := findSliceBase(k, v); b != "" {
+			return b
+		}
+	}
+	return ""
+}
